@@ -593,7 +593,12 @@ pub fn gen_fci(r: &mut Rng, cfg: &GenCfg) -> Fci {
                         if inv {
                             (r.u16(), r.u16(), r.u8())
                         } else {
-                            (r.u16() & 0x1fff, r.u16() & 0x1fff, r.u8() & 0x3f)
+                            // both ends of every field range, and anything between
+                            let f13 = |r: &mut Rng| -> u16 { [0u16, 1, 0x1ffe, 0x1fff, 0x1000, 0x0fff][r.below(6)] };
+                            let first = if r.chance(1, 4) { f13(r) } else { r.u16() & 0x1fff };
+                            let number = if r.chance(1, 4) { f13(r) } else { r.u16() & 0x1fff };
+                            let pic = if r.chance(1, 4) { [0u8, 1, 0x3e, 0x3f][r.below(4)] } else { r.u8() & 0x3f };
+                            (first, number, pic)
                         }
                     })
                     .collect(),
